@@ -866,6 +866,59 @@ theorem trace_states_invariant (cfg : Cfg) (wg : List Nat) (batches : List (List
   have hr : Reach cfg.cls cfg.R cfg.B cfg.K (init batches cfg.W) psk.lts := hev.lpath.reach .refl
   exact ⟨psk, h1, hr, pipeline_invariant cfg.cls cfg.R cfg.B cfg.K cfg.W batches hr⟩
 
+/-- **`wg.Wait()` returns only after every reader's status bookkeeping**: the deferred exit block of a reader of
+    `OpenFilesToChan` is `<-sema; out.stopFileReading(name); wg.Done()` (/repo 7025f4b; `skeleton_matches_source`
+    pins it), and the trace machine demands exactly that of a real run's log: a `cw` event (logged right after
+    `wg.Wait()` returned) is possible only in a state in which every source is done AND has logged its `sc`
+    (entry of `stopFileReading`); it is a stuttering step.  With the older order (`wg.Done()` first) a `cw` could
+    overtake an `sc` – such a log is rejected. -/
+theorem trace_wait_after_status (cfg : Cfg) (wg : List Nat) (ps ps' : PSt) (e : Ev) (hk : e.kind = "cw")
+    (h : (machine cfg wg).step ps e = some ps') :
+    ps.lts.srcs.all SrcSt.isDone = true ∧ (∀ i, i < ps.lts.srcs.length → i ∈ ps.stopped) ∧
+      ps'.lts = ps.lts ∧ ps'.stopped = ps.stopped := by
+  obtain ⟨ls, hl, hp⟩ := pstep_sound (cfg := cfg) (wg := wg) h
+  have hst : ps'.stopped = ps.stopped := by
+    simp only [machine, pstep] at h
+    split at h
+    · simp at h
+    · split at h
+      · simp at h
+      · simp only [Option.some.injEq] at h
+        subst h
+        simp [hk]
+  simp only [evLabels, hk] at hl
+  split at hl
+  · rename_i hc
+    simp only [Option.some.injEq] at hl
+    subst hl
+    simp only [Bool.and_eq_true, List.all_eq_true, List.mem_range, List.contains_eq_mem, decide_eq_true_eq] at hc
+    exact ⟨by simpa [List.all_eq_true] using hc.1, hc.2, lpath_nil_eq hp, hst⟩
+  · simp at hl
+
+/-- … and an `sc` event of source `i` is possible only once, after that source's `rl` (its goroutine is in the exit
+    block: the source is `done`); it records `i` in `PSt.stopped` and is a stuttering step. -/
+theorem trace_status_once (cfg : Cfg) (wg : List Nat) (ps ps' : PSt) (e : Ev) (hk : e.kind = "sc")
+    (h : (machine cfg wg).step ps e = some ps') :
+    srcDone ps.lts e.src = true ∧ e.src ∉ ps.stopped ∧ ps'.stopped = e.src :: ps.stopped ∧ ps'.lts = ps.lts := by
+  obtain ⟨ls, hl, hp⟩ := pstep_sound (cfg := cfg) (wg := wg) h
+  have hst : ps'.stopped = e.src :: ps.stopped := by
+    simp only [machine, pstep] at h
+    split at h
+    · simp at h
+    · split at h
+      · simp at h
+      · simp only [Option.some.injEq] at h
+        subst h
+        simp [hk]
+  simp only [evLabels, hk] at hl
+  split at hl
+  · rename_i hc
+    simp only [Option.some.injEq] at hl
+    subst hl
+    simp only [Bool.and_eq_true, Bool.not_eq_true', List.contains_eq_mem, decide_eq_false_iff_not] at hc
+    exact ⟨hc.1, hc.2, hst, lpath_nil_eq hp⟩
+  · simp at hl
+
 /-- An accepted log ends in a state whose consumer multiset and counters are those of the sequential
     evaluation of the configured inputs' bytes: the batches the checker derived from the logged flushes
     (and checked against the batching-loop model) partition the inputs' lines.  `cfg.cls` is the configured
